@@ -167,7 +167,8 @@ let run_case oc (c : case) =
             | TrLinkThroughLink -> "link_target_through_link" | TrClimbingLink -> "link_climbs_above_root"
             | TrDanglingParent -> "dangling_symlink_parent"
             | TrRelativeName -> "relative_name"
-            | TrHiddenViaLink -> "hidden_reached_via_symlink"))
+            | TrHiddenViaLink -> "hidden_reached_via_symlink"
+            | TrRemovesRoot -> "removes_view_root"))
             (triggers cfg o !w);
           let before = List.length (dump_trace !w) in
           let (r, w') = if direct then step_direct dbase o !w else step base backup o !w in
